@@ -1266,15 +1266,20 @@ class ContactHandler(Messenger, dbus.service.Object):
         Messenger.recv_sess_term(self, reason)
 
         # No further processing
+        self._tx_cancel_pend_start()
+        self._check_sess_term()
+
+    def _tx_cancel_pend_start(self):
+        ''' Give up on all transfers which are not yet started. '''
         while self._tx_pend_start:
             item = self._tx_pend_start.pop(0)
             self._logger.warning('Terminating and ignoring transfer %d', item.transfer_id)
+            self._tx_map.pop(item.transfer_id, None)
             self.send_bundle_finished(
                 str(item.transfer_id),
                 item.total_length or 0,
                 'session terminating'
             )
-        self._check_sess_term()
 
     def recv_xfer_data(self, transfer_id, flags, data, ext_items):
         Messenger.recv_xfer_data(self, transfer_id, flags, data, ext_items)
@@ -1510,6 +1515,11 @@ class ContactHandler(Messenger, dbus.service.Object):
             if not self._in_sess:
                 # waiting for session
                 return True
+            if self._in_term:
+                # no new transfers after SESS_TERM is sent
+                self._tx_cancel_pend_start()
+                self._check_sess_term()
+                return False
             if not self._tx_pend_start:
                 # nothing to do
                 return False
